@@ -8,6 +8,7 @@ import importlib
 import json
 import os
 import random
+import signal
 import sys
 import time
 import traceback
@@ -89,7 +90,19 @@ def safe_key(k):
         return f"<{type(k).__name__}>"
 
 
+CASE_TIMEOUT_S = 240
+
+
+class CaseTimeout(BaseException):
+    pass
+
+
+def _on_alarm(signum, frame):
+    raise CaseTimeout
+
+
 def main():
+    signal.signal(signal.SIGALRM, _on_alarm)
     prop, tier, seed, shard, nshards, out = sys.argv[1:7]
     seed, shard, nshards = int(seed), int(shard), int(nshards)
     rest = sys.argv[7:]
@@ -130,13 +143,21 @@ def main():
         def run_case(idx):
             ctx.case = idx
             rng = ctx.rng(idx)
+            # a single case that does not come back (e.g. a datum that iterates 2**96 addresses) must not eat the whole budget:
+            # it is abandoned and makes the run INCONCLUSIVE (never a violation: wall-clock decides nothing)
+            signal.setitimer(signal.ITIMER_REAL, CASE_TIMEOUT_S)
             try:
                 mod.run_case(ctx, rng, idx)
+            except CaseTimeout:
+                ctx.count("case_timeouts")
+                ctx.sample({"case_timeout": idx}, force=True)
             except Exception as e:  # noqa: BLE001
                 tb = traceback.extract_tb(e.__traceback__)
                 where = next((f"{os.path.basename(fr.filename)}:{fr.name}" for fr in reversed(tb) if "/adaptix/" in fr.filename), "harness")
                 ctx.violation(f"unexpected-exception:{type(e).__name__}@{where}", f"case {idx} raised {e!r}",
                               {"trace": traceback.format_exc()[-2500:]})
+            finally:
+                signal.setitimer(signal.ITIMER_REAL, 0)
 
         if only_case is not None:
             if only_case.startswith("directed:"):
